@@ -18,7 +18,9 @@ RULE = (
     "graph name, rdflib Variable as term, unsupported graph id of GraphStream.graph, a statement with more namespaces than the "
     "prefix table has slots} x slot {s, p, o, g, nested s/p/o of a "
     "quoted triple} x TripleStream / QuadStream / GraphStream x generic / rdflib term encoder, driven statement by "
-    "statement in a catch-and-continue loop (frames written as they appear, final flush of the flow). accepted := the "
+    "statement in a catch-and-continue loop (frames written as they appear, final flush of the flow) x what the caller does "
+    "after a rejection {carries on, calls enroll() again as every integration helper does, hands the rest to the "
+    "integration's stream_frames(stream, ...) with the same stream}. accepted := the "
     "statements whose call returned. Oracle: the reference decoder R (unclosed graph at end allowed; a graph start while a "
     "graph is open closes it) decodes all bytes written to exactly the accepted statements in order - which is satisfied "
     "both by 'no trace' and by 'stream refuses further use' - and the bytes written before each failure decode to a prefix "
@@ -64,6 +66,7 @@ def poison_case(draw):
     else:
         preset = draw(gen.preset_for(stmts))
     return {"integration": integration, "phys": phys, "statements": stmts, "poisons": poisons, "preset": preset,
+            "after_failure": draw(st.sampled_from(["carry_on", "carry_on", "enroll", "glue"])),
             "frame_size": draw(st.sampled_from([1, 2, 3, 5, 250])), "logical": 1 if phys == "TRIPLES" else 2,
             "delimited": True, "params": {"generalized": True, "rdf_star": True, "stream_name": ""}}
 
@@ -183,6 +186,38 @@ def run_case(case):
             except Exception:  # noqa: BLE001
                 failed += 1
                 marks.append((out.tell(), len(accepted)))
+                how = case.get("after_failure", "carry_on")
+                if how == "enroll":
+                    # a caller that starts every batch with enroll(), as the integration helpers do
+                    try:
+                        stream.enroll()
+                    except Exception:  # noqa: BLE001
+                        pass
+                elif how == "glue" and not any(k > i for k in poison_at):
+                    # the rest goes through the integration's stream_frames(stream, statements) with the same stream
+                    if integration == "generic":
+                        from pyjelly.integrations.generic.serialize import stream_frames
+                    else:
+                        from pyjelly.integrations.rdflib.serialize import stream_frames
+                    pulled = []
+
+                    def rest(lo=i + 1):
+                        for k in range(lo, n):
+                            pulled.append(k)
+                            yield pyj.conv_stmts([stmts[k]], integration)[0]
+
+                    try:
+                        for frame in stream_frames(stream, rest()):
+                            emit(frame)
+                    except Exception:  # noqa: BLE001
+                        failed += 1
+                        for k in pulled[:-1]:
+                            accepted.append(expected(stmts[k]))
+                        marks.append((out.tell(), len(accepted)))
+                    else:
+                        for k in pulled:
+                            accepted.append(expected(stmts[k]))
+                    break
             else:
                 emit(frame)
                 accepted.append(expected(s))
@@ -214,6 +249,11 @@ def run_case(case):
                 emit(frame)
         except Exception:  # noqa: BLE001
             failed += 1
+            if case.get("after_failure") == "enroll":
+                try:
+                    stream.enroll()
+                except Exception:  # noqa: BLE001
+                    pass
             done = pulled[:-1] if pulled else []
             for k in done:
                 accepted.append(expected(stmts[k]))
@@ -252,6 +292,7 @@ def body(case, acc):
             "cause_" + p["cause"] for p in case["poisons"]] + ["slot_" + p["slot"] for p in case["poisons"]]
         if failed:
             labels.append("had_rejection")
+            labels.append("after_failure_" + case.get("after_failure", "carry_on"))
         acc.case(case, nt and failed > 0, labels)
     mode = "lenient-brackets" if case["phys"] == "GRAPHS" else "prefix"
     res = jellyref.decode(data, True, mode=mode)
@@ -304,11 +345,12 @@ def enumerate_cases():
                             continue
                         for nested in ("spo" if cause == "nested_unsupported" else "s"):
                             preset = [8, 4, 0] if cause == "typed_literal_disabled" else [8, 4, 4]
-                            yield {"integration": integration, "phys": phys, "statements": stmts,
-                                   "poisons": [{"pos": pos, "cause": cause, "slot": slot, "nested_slot": nested}],
-                                   "preset": preset, "frame_size": 3, "logical": 1 if phys == "TRIPLES" else 2,
-                                   "delimited": True,
-                                   "params": {"generalized": True, "rdf_star": True, "stream_name": ""}}
+                            for after in ("carry_on", "enroll", "glue"):
+                                yield {"integration": integration, "phys": phys, "statements": stmts,
+                                       "poisons": [{"pos": pos, "cause": cause, "slot": slot, "nested_slot": nested}],
+                                       "preset": preset, "after_failure": after, "frame_size": 3,
+                                       "logical": 1 if phys == "TRIPLES" else 2, "delimited": True,
+                                       "params": {"generalized": True, "rdf_star": True, "stream_name": ""}}
 
 
 def run_shard(spec) -> Acc:
